@@ -136,7 +136,7 @@ def main():
             'checker_cmd': f'cd /verif/coq && make Props/{pid}.vo && coqc <flags> Props/{pid}.v  (Coq 8.16.1 kernel; Print Assumptions under every theorem)',
             'trusted_base': getattr(mod, 'TRUSTED', []) + [f'{n}: {b}' for (n, _), b in zip(thms, blocks)],
             'theorems': [{'name': n, 'statement': s[:400], 'assumptions': b} for (n, s), b in zip(thms, blocks)],
-            'translated_kernels': [kk for kk in tr_rep.get('kernels', []) if kk['kernel'].split('.')[0] in getattr(mod, 'KERNELS', ()) or kk['kernel'] in getattr(mod, 'KERNELS', ())],
+            'translated_kernels': [kk for kk in tr_rep.get('kernels', []) if kk.get('gen') in lib.gen_deps(pid)],
             'translation_ok': proof['translated'], 'build_ok': proof['built'],
             'broken_obligations': broken,
             'generated_files_required': sorted(lib.gen_deps(pid)),
